@@ -204,6 +204,17 @@ func c14GenDecor(t *rapid.T, label string) *c14Decor {
 	for i, n := 0, rapid.IntRange(0, 4).Draw(t, label+"npre"); i < n; i++ {
 		d.preamble = append(d.preamble, rapid.SampledFrom(msgs).Draw(t, label+"pre"))
 	}
+	if rapid.IntRange(0, 2).Draw(t, label+"multilineMessage") == 0 {
+		// A multi-line panic message: the runtime prints every continuation line indented by a tab,
+		// so text that looks like a sentinel, a goroutine header or a frame can occur there and
+		// must not be taken for the real thing.
+		d.preamble = append(d.preamble, "panic: "+label+" wrapped error:",
+			"\tsentinel 1234",
+			"\tgoroutine 99 [running]:",
+			"\tmain.fromTheMessage(0x1, 0x2)",
+			"\t\t/home/alice/msg.go:1 +0x1 fp=0xc000000001 sp=0xc000000000 pc=0x"+fmt.Sprintf("%x", 0x400000+rapid.IntRange(0, 0xffff).Draw(t, label+"msgPC")),
+			"\t")
+	}
 	argStyle := rapid.IntRange(0, 3).Draw(t, label+"argStyle")
 	d.args = func(i int) string {
 		switch argStyle {
